@@ -23,6 +23,13 @@ theorem writer_fills_missing : Gen.C01.writeFill = some 0 := by decide
 /-- the array is cast to single precision (`writeGen` stores float64 / data-type 9 otherwise) -/
 theorem writer_casts_single : Gen.C01.writeCastsSingle = true := by decide
 
+/-- `Motl.write_out`: `motl_type` defaults to `"emmotl"`, is compared case-insensitively, and the EM branch is
+`EmMotl(self.df).write_out(output_path)`; `Motl.load`: default `"emmotl"`, compared as given, EM branch
+`return EmMotl(input_motl)` (regenerated from the two dispatchers on every run) -/
+theorem dispatch_documented :
+    Gen.C01.motlWriteOutDefault = "emmotl" ∧ Gen.C01.motlWriteOutLowers = true ∧ Gen.C01.motlWriteOutEmBranch = true ∧
+    Gen.C01.motlLoadDefault = "emmotl" ∧ Gen.C01.motlLoadLowers = false ∧ Gen.C01.motlLoadEmBranch = true := by decide
+
 /-! ### helper lemmas -/
 
 private theorem rowsOf_flatMap (n : Nat) (g : List α → List β) (rows : List (List α))
@@ -298,6 +305,33 @@ theorem writer_selection_matters :
     let t : Table (Option Nat) := { cols := [Field.geom1, Field.score] ++ Field.all.drop 2, rows := [(List.range 20).map some] }
     writeSrc false (some 0) true toyOps t ≠ writeSrc true (some 0) true toyOps t := by decide
 
+/-- **Both paths of the quantifier write with the same writer**: `Motl.write_out(p)` (type omitted),
+`Motl.write_out(p, 'emmotl')` and the case variants the `.lower()` admits all are `EmMotl(self.df).write_out(p)`,
+i.e. `writeGen` — computed from the regenerated dispatch facts -/
+theorem motl_write_out_em (o : NumOps α) (t : Table α) (ty : Option String)
+    (h : ty = none ∨ ty = some "emmotl" ∨ ty = some "EMMOTL" ∨ ty = some "EmMotl") :
+    motlWriteOut ty o t = some (writeGen o t) := by
+  have hc : ∀ s : Option String, (s = none ∨ s = some "emmotl" ∨ s = some "EMMOTL" ∨ s = some "EmMotl") →
+      (typeIs Gen.C01.motlWriteOutLowers (s.getD Gen.C01.motlWriteOutDefault) && Gen.C01.motlWriteOutEmBranch) = true := by
+    intro s hs
+    rcases hs with rfl | rfl | rfl | rfl <;> decide +kernel
+  simp only [motlWriteOut, hc ty h, if_true]
+
+/-- `Motl.load(p)` and `Motl.load(p, 'emmotl')` read with the model of `EmMotl.read_in`; another type does not -/
+theorem motl_load_em (f : EmFile β) (ty : Option String) (h : ty = none ∨ ty = some "emmotl") :
+    motlLoad ty f = readEm f := by
+  have hc : ∀ s : Option String, (s = none ∨ s = some "emmotl") →
+      (typeIs Gen.C01.motlLoadLowers (s.getD Gen.C01.motlLoadDefault) && Gen.C01.motlLoadEmBranch) = true := by
+    intro s hs
+    rcases hs with rfl | rfl <;> decide +kernel
+  simp only [motlLoad, hc ty h, if_true]
+
+/-- the type string matters: `'relion'` does not reach the EM writer in this model -/
+theorem motl_write_out_other (o : NumOps α) (t : Table α) : motlWriteOut (some "relion") o t = none := by
+  have hc : (typeIs Gen.C01.motlWriteOutLowers ((some "relion" : Option String).getD Gen.C01.motlWriteOutDefault)
+      && Gen.C01.motlWriteOutEmBranch) = false := by decide +kernel
+  simp only [motlWriteOut, hc]; rfl
+
 /-! ### the file as bytes -/
 
 /-- **Decoding inverts encoding.** For every float32 volume with non-negative int32 extents whose payload has
@@ -328,7 +362,8 @@ theorem decodeEm_encodeEm (f : EmFile UInt32) (hd : f.dtype = 5)
 and exactly 4·x·y·z payload bytes, which are the decoded cells -/
 theorem decodeEm_sound (bs : List UInt8) (f : EmFile UInt32) (h : decodeEm bs = some f) :
     f.dtype = 5 ∧ bs.getD 0 0 = 6 ∧ bs.getD 3 0 = 5 ∧ bs.length = 512 + 4 * (f.dimX * f.dimY * f.dimZ) ∧
-    f.dimX = u32At bs 4 ∧ f.dimY = u32At bs 8 ∧ f.dimZ = u32At bs 12 ∧ f.data = words (bs.drop 512) := by
+    f.dimX = u32At bs 4 ∧ f.dimY = u32At bs 8 ∧ f.dimZ = u32At bs 12 ∧ f.data = words (bs.drop 512) ∧
+    f.dimX < 2147483648 ∧ f.dimY < 2147483648 ∧ f.dimZ < 2147483648 := by
   unfold decodeEm at h
   split at h; · cases h
   split at h; · cases h
@@ -338,6 +373,21 @@ theorem decodeEm_sound (bs : List UInt8) (f : EmFile UInt32) (h : decodeEm bs = 
   split at h; · cases h
   cases h
   simp_all
+
+/-- **The decoder accepts everything that is a valid float32 EM volume** (the converse of `decodeEm_sound`): machine
+code 6, data-type code 5, non-negative int32 extents and exactly 4·x·y·z payload bytes suffice. Together:
+`decodeEm bs = some f` ⇔ these conditions hold and `f` is the volume they describe — "accepts exactly". -/
+theorem decodeEm_complete (bs : List UInt8) (h0 : bs.getD 0 0 = 6) (h3 : bs.getD 3 0 = 5)
+    (hx : u32At bs 4 < 2147483648) (hy : u32At bs 8 < 2147483648) (hz : u32At bs 12 < 2147483648)
+    (hlen : bs.length = 512 + 4 * (u32At bs 4 * u32At bs 8 * u32At bs 12)) :
+    decodeEm bs = some { dtype := 5, dimX := u32At bs 4, dimY := u32At bs 8, dimZ := u32At bs 12,
+                         data := words (bs.drop 512) } := by
+  have h1 : ¬ (bs.length < 512) := by omega
+  have h2 : ¬ (u32At bs 4 ≥ 2147483648 ∨ u32At bs 8 ≥ 2147483648 ∨ u32At bs 12 ≥ 2147483648) := by omega
+  unfold decodeEm
+  rw [if_neg h1, if_neg (fun h => h h0), if_neg (fun h => h h3)]
+  simp only []
+  rw [if_neg h2, if_neg (by simpa using hlen)]
 
 /-- **The checker decides the last clause of the property on bytes**: it answers `ok` exactly when the bytes are a
 valid float32 EM volume of extents 20 × N × 1 (numpy shape 1 × N × 20) whose cells equal, as numbers, the demanded ones -/
